@@ -549,7 +549,7 @@ func (vc *VC) mergeStates(ins []*State) *State {
 			if !ok {
 				fv, _ := vc.freshVal("mergefail", nil2any())
 				m = fv
-				out.setTaint("incompatible values merged in a local")
+				out.setTaint(fmt.Sprintf("incompatible values merged in a local (%T vs %T)", sv, v))
 			}
 			out.cells[id] = m
 		}
